@@ -142,7 +142,7 @@ func vc06Scenarios() []vc06Scenario {
 		{Name: "competing-roots", Threads: [][]vc06Ev{{root}, {vc06E("B1()", "right")}}},
 		{Name: "siblings", Base: []vc06Ev{root}, Threads: [][]vc06Ev{{vc06E(c1, "right")}, {vc06E(c2, "right")}}},
 		{Name: "parent+child", Base: []vc06Ev{root}, Threads: [][]vc06Ev{{vc06E(c1, "right")}, {vc06E("A("+c1+")", "right")}}},
-		{Name: "same-tx-payload-vs-none", Base: []vc06Ev{root, vc06E(c2, "right")}, Threads: [][]vc06Ev{{vc06E("B2("+c2+")", "right")}, {vc06E("B2("+c2+")", "none")}},},
+		{Name: "same-tx-payload-vs-none", Base: []vc06Ev{root, vc06E(c2, "right")}, Threads: [][]vc06Ev{{vc06E("B2("+c2+")", "right")}, {vc06E("B2("+c2+")", "none")}}},
 		{Name: "same-tx-right-vs-wrong-payload", Base: []vc06Ev{root}, Threads: [][]vc06Ev{{vc06E(c1, "right")}, {vc06E(c1, "wrong")}}},
 		{Name: "root+child", Threads: [][]vc06Ev{{root}, {vc06E(c1, "right")}}},
 		{Name: "merge+its-prev", Base: []vc06Ev{root, vc06E(c1, "right")}, Threads: [][]vc06Ev{{vc06E(c2, "right")}, {vc06E("A("+c1+","+c2+")", "right")}}},
@@ -250,6 +250,9 @@ func TestVerifC06Schedules(t *testing.T) {
 	}
 	var rc vc06SchedCase
 	replay := r.ReplayCase(&rc)
+	if os.Getenv("VERIF_REPLAY") != "" && !replay {
+		return // the replay file belongs to another part
+	}
 	for si, sc := range scs {
 		if replay && sc.Name != rc.Scenario {
 			continue
